@@ -181,10 +181,16 @@ class ConcE:
         items = self._seq(name, minlen, maxlen, lambda j: self.gen.bool(name))
         return [bool(x) for x in items]
 
-    def intmap(self, name, elem='int'):
+    def intmap(self, name, elem='int', lo=None, hi=None):
         def gen():
-            n = self.gen.length(name, 0, 8)
-            ks = set(self.gen.int(name, -1, 20) for _ in range(n))
+            r = self.gen.r
+            ks = set()
+            for _ in range(r.choice([0, 1, 2, 3])):            # a few runs of consecutive keys, so that ranges with and without holes both occur
+                a = r.choice([0, 1, 2, 5, 9, 17, 100, 65530])
+                ks.update(range(a, a + r.choice([1, 2, 3, 8, 20, 130])))
+            for _ in range(r.choice([0, 0, 1, 3])):
+                ks.discard(r.choice(sorted(ks)) if ks else 0)
+            ks.update(self.gen.int(name, -1, 20) for _ in range(r.choice([0, 2])))
             return {'items': {k: (self.gen.bool(name) if elem == 'bool' else self.gen.int(name, 0, 65536)) for k in ks}}
         v = self._get(name, gen)
         items = v['items'] if isinstance(v, dict) and 'items' in v else v
@@ -410,10 +416,73 @@ class ConcE:
 def run_concrete(unit, inputs=None, gen=None):
     """-> (status, results, used): status 'ok' | 'vacuous' | 'error:<text>'"""
     E = ConcE(inputs, gen)
+    undo = install_pre_checks(unit, E)
     try:
         unit.fn(E)
     except Vacuous:
         return 'vacuous', E.results, E.used
     except ConcRaised as r:
         E.results.append(('unit:no-unhandled-exception[%s]' % r.cls, False, {}))
+    finally:
+        for (owner, name, orig) in undo:
+            setattr(owner, name, orig)
     return 'ok', E.results, E.used
+
+
+def install_pre_checks(unit, E):
+    """run-time side of modular verification: the precondition of every contract the unit relies on is evaluated at each call
+    the real code makes to that function (label pre@<qualname>, the same obligation the engine proves at the call site).  Calls
+    made from inside a contracted function are not checked: the engine does not visit them either (the contract stands for the body)."""
+    import importlib, functools
+    undo = []
+    depth = [0]
+    for c in getattr(unit, 'contracts', ()):
+        if type(c).pre is FunctionContract_pre():
+            continue
+        parts = c.qual.split('.')
+        owner = None
+        for k in range(len(parts) - 1, 0, -1):
+            try:
+                owner = importlib.import_module('.'.join(parts[:k]))
+            except ImportError:
+                continue
+            rest = parts[k:]
+            break
+        if owner is None:
+            continue
+        try:
+            for a in rest[:-1]:
+                owner = getattr(owner, a)
+            name = rest[-1]
+            raw = owner.__dict__.get(name) if hasattr(owner, '__dict__') else None
+        except AttributeError:
+            continue
+        if raw is None or isinstance(raw, (staticmethod, classmethod, property)) or not callable(raw):
+            continue
+
+        def make(c, raw):
+            @functools.wraps(raw)
+            def wrapper(*args, **kw):
+                if depth[0] == 0:
+                    try:
+                        ok = c.pre(E, *args, **kw)
+                    except (Vacuous, ConcRaised):
+                        raise
+                    except Exception:
+                        ok = None          # the precondition is not evaluable on these run-time values: not checked
+                    if ok is not None:
+                        E.results.append(('pre@%s' % c.qual, bool(ok), {}))
+                depth[0] += 1
+                try:
+                    return raw(*args, **kw)
+                finally:
+                    depth[0] -= 1
+            return wrapper
+        undo.append((owner, name, raw))
+        setattr(owner, name, make(c, raw))
+    return undo
+
+
+def FunctionContract_pre():
+    from .unit import FunctionContract
+    return FunctionContract.pre
